@@ -436,7 +436,9 @@ def _r6(ctx):
                 src = ast.unparse(fn)
                 if "reactants" not in src and "products" not in src:
                     continue
-                fl = Flow(fn, f)
+                # read with the private helpers the method was split into put back (pymodel.folded): a list built by a pipeline of
+                # helpers is the same list
+                fl = Flow(pkg.folded(ci.name, mname, keep=("_create_species",)) if mname in ("_parse_string", "__init__") else fn, f)
                 for fact in fl.facts:
                     if fact.kind == "attrstore" and fact.target in ("reactants", "products", "_reactants", "_products") \
                             and fact.extra.get("obj") == ("param", "self"):
@@ -482,7 +484,7 @@ def _r6(ctx):
     # the list consulted is the CONFIGURED pseudo-element list whenever any list was configured
     kp = pkg.method("Species", "known_pseudoelements") and pkg.expanded("Species", "known_pseudoelements")
     ctx.saw("naunet/species.py", "Species.known_pseudoelements")
-    kfl = Flow(kp, "naunet/species.py")
+    kfl = Flow(pkg.expanded("Species", "known_pseudoelements"), "naunet/species.py")      # small predicates of the class put back
     CLS = ("param", "cls")
     KE, KP, DEF = ("attr", CLS, "_known_elements"), ("attr", CLS, "_known_pseudoelements"), ("attr", CLS, "default_pseudoelements")
     rets = [(v, tuple((simp(g), p) for g, p in gs)) for f in kfl.facts if f.kind == "return"
